@@ -389,7 +389,7 @@ func (p *Prog) runMapOrder(r *Report, rule string, roots []*ssa.Function, depth 
 	n := 0
 	cnt := map[string]int{}
 	for _, f := range funcs {
-		for _, g := range withAnon(f) {
+		for _, g := range anonOf(f) {
 			if seen[g] {
 				continue
 			}
